@@ -253,7 +253,7 @@ func c16Oracle(w *World, ds *DSetup) *Violation {
 func C16Scenario() *Scenario {
 	return &Scenario{Prop: "C16", Init: func(w *World) {
 		t := w.T
-		ds := NewDecoratorSetup(w, DGenOpts{MaxDecorators: 2})
+		ds := NewDecoratorSetup(w, DGenOpts{MaxDecorators: 2, PlainOwner: true})
 		b := &EnvBudget{Left: 4 + t.Pick(8, "envbudget")}
 		w.EnvOps = func(w *World) []EnvOp {
 			var ops []EnvOp
